@@ -82,7 +82,7 @@ def _job(job):
 
     out = []
     for hid, h in hists:
-        d = tempfile.mkdtemp(prefix="sys_", dir=lib.WORK)
+        d = lib.workdir("sys_")
         hs, model_keys, evs = [], [], []
         try:
             for e in h:
